@@ -12,6 +12,7 @@ from z3 import *
 from pyvc.core import *
 
 PROPS = ['C09']
+REPLAY = {'driver': 'labels'}
 TRUSTED = [
     "int(str(i)) == i for exact ints; float(str(f)) == f (NaN maps to NaN: abstract float identity); str(s) is s for exact str; str() returns a str",
     "str(True).lower() == 'true', str(False).lower() == 'false'; str(x).lower() of an already parsed bool behaves the same",
@@ -206,7 +207,9 @@ def generate(src):
                 for c in Inv(s3, i + 1): oblige(s3, "parse_labels/loop/inv-preserved: labels[k] = parse_label(labels[k], labels_types[k]) for visited keys present in both maps, all others untouched  [C09]", c)
             K2 = dict(K); K2['cont'] = back; ex_.block(s.body, it, back, K2)
             out = st.fork(); out.heap = out.heap.copy(); out.heap.dval = fresh('dval_h', out.heap.dval.sort()); out.heap.dhas = fresh('dhas_h', out.heap.dhas.sort()); out.pc.append(Not(types_none)); assume(out, Inv(out, n)); return k(out)
-        exp = ExP({'parse_label': h_parse_label, '@for': h_for})
+        def h_dget(ex_, st_, e, d, args, kw, k, K):
+            kx = to_val(args[0]); return k(st_, If(st_.heap.dhas[d.addr][kx], st_.heap.dval[d.addr][kx], to_val(args[1]) if len(args) > 1 else Val.none))
+        exp = ExP({'parse_label': h_parse_label, '@for': h_for, 'dict.get': h_dget})
         def on_ret(s, vv):
             oblige(s, "parse_labels/post: every label with a type tag is decoded by parse_label with that tag, labels without a tag are left as received; key set unchanged  [C09]",
                    ForAll([key], And(s.heap.dhas[lab_a][key] == LH0[key], s.heap.dval[lab_a][key] == If(And(Not(types_none), TH0[key], LH0[key]), parse_fn(L0[key], T0[key]), L0[key]))))
